@@ -670,6 +670,14 @@ impl TransportManager {
             }
         };
 
+        // The transport may be compiled in but not enabled for this node. Refuse the address
+        // before the peer is put into `Dialing` state, otherwise the peer would stay there forever.
+        if !self.transports.keys().any(|transport| transport == &supported_transport) {
+            return Err(Error::TransportNotSupported(
+                address_record.address().clone(),
+            ));
+        }
+
         // when constructing `AddressRecord`, `PeerId` was verified to be part of the address
         let remote_peer_id =
             PeerId::try_from_multiaddr(address_record.address()).expect("`PeerId` to exist");
